@@ -51,6 +51,7 @@ pub fn rop() -> impl Strategy<Value = ROp> {
         4 => prop::sample::select(vec![1u32, 3, 64, 4096]).prop_map(ROp::Read),
         3 => prop::sample::select(vec![0u32, 1, 3, 1_000_000]).prop_map(ROp::Fill),
         1 => prop::sample::select(vec![1u32, 3, 1_000_000]).prop_map(ROp::LowLevel),
+        2 => prop::sample::select(vec![2u32, 5, 9, 40, 6000]).prop_map(ROp::Exact),
         1 => Just(ROp::Yield),
     ]
 }
